@@ -185,11 +185,69 @@ def case(item):
     return res
 
 
+def key_family_work(item):
+    """Keys of the two array-keyed memos over a large enumerated family of distinct realistic arguments: the log-likelihood
+    grid of one mutation for EVERY (depth, alternate count) in a depth range.  -> {key: digest of the argument bytes}."""
+    import hashlib
+    from phyclone.utils.utils import NumpyArrayListHasher, NumpyTwoArraysHasher
+
+    lo, hi, G = item
+    ccf = np.linspace(0.0, 1.0, G)
+    p_alt = 0.001 + (0.5 - 0.001) * ccf
+    lp, lq = np.log(p_alt), np.log1p(-p_alt)
+    base = np.full((1, G), -1.25)
+    one, two = {}, {}
+    n = 0
+    probs = []
+    for d in range(lo, hi):
+        b = np.arange(d + 1)[:, None]
+        M = b * lp[None, :] + (d - b) * lq[None, :]
+        for row in M:
+            arr = np.ascontiguousarray(row[None, :])
+            dg = hashlib.sha1(arr.tobytes()).digest()[:10]
+            n += 1
+            try:
+                k1 = NumpyArrayListHasher([arr]).h
+                k2 = NumpyTwoArraysHasher(arr, base).h
+            except Exception as e:
+                return {"item": item, "n": n, "one": {}, "two": {}, "problems": ["building a memo key raised %s: %s" % (type(e).__name__, e)]}
+            for nm, tab, k in (("children-list", one, k1), ("pair", two, k2)):
+                k = repr(k) if not isinstance(k, (tuple, frozenset, str, int)) else k
+                if k in tab and tab[k] != dg and len(probs) < 3:
+                    probs.append("%s memo: two different arguments (depth %d) share the key %r" % (nm, d, k))
+                tab[k] = dg
+    return {"item": item, "n": n, "one": one, "two": two, "problems": probs}
+
+
+def key_family(chk, tier):
+    """No two different arguments of the enumerated family may share a memo key (a shared key serves one argument the other's value)."""
+    hi = 800 if tier == "quick" else 1100
+    edges = list(range(20, hi, 20)) + [hi]
+    items = [(a, b, 101) for a, b in zip(edges, edges[1:])]
+    one, two = {}, {}
+    tot = 0
+    for r in pool_imap(key_family_work, items, chunksize=1):
+        tot += r["n"]
+        for pr in r["problems"]:
+            chk.violation({"sub": "memo-key", "what": pr.split(":")[0]}, {"problem": pr}, {"key_family": list(r["item"])})
+        for nm, tab, part in (("children-list", one, r["one"]), ("pair", two, r["two"])):
+            for k, dg in part.items():
+                if k in tab and tab[k] != dg:
+                    chk.violation({"sub": "memo-key", "what": nm + " memo"}, {"problem": "%s memo: two different arguments of the enumerated family share the key %r" % (nm, k)}, {"key_family": [20, hi, 101]})
+                tab[k] = dg
+    chk.evaluations += 2 * tot
+    chk.n_states_extra += tot
+    chk.note("memo_key_family", {"distinct_arguments": tot, "distinct_children_list_keys": len(one), "distinct_pair_keys": len(two)})
+    if len(one) != tot or len(two) != tot:
+        chk.violation({"sub": "memo-key", "what": "fewer keys than arguments"}, {"problem": "%d distinct arguments map to %d / %d keys" % (tot, len(one), len(two))}, {"key_family": [20, hi, 101]})
+
+
 def main(tier, seed):
     chk = Check("C14", tier, seed)
     chk.rule = ("every history of length <=2 (3 thorough) over {particle-Gibbs update per proposal, subtree update, data-point move, prune-regraft, concentration change, "
                 "cache clear}, once with the clears the run loop performs and once without; n=2: ALL random outcomes, n=3: deviation bound 1 (2 thorough); every call "
-                "of the four memoised functions shadowed by the wrapped original; non-trivial = history whose exploration made >= 1 cache hit")
+                "of the four memoised functions shadowed by the wrapped original; key part: the memo keys of every single-mutation likelihood grid for all (depth <= 800 (1100), alternate count) pairs "
+                "(320k / 600k distinct arguments) are pairwise different; non-trivial = history whose exploration made >= 1 cache hit")
     chk.assumptions = ["tolerance 1e-9 on arrays and log-probabilities (the caches are keyed order-insensitively, so last-bit differences are expected and are C18's business)",
                        "all memo caches are emptied at the start of every execution; warm states arise from the history itself"]
     L = 2 if tier == "quick" else 3
@@ -236,6 +294,7 @@ def main(tier, seed):
             chk.exhaustive = False
         for pr in r["problems"]:
             chk.violation({"sub": "memo", "what": pr["problems"][0].split(":")[0][:40], "mode": cfg["mode"]}, {"config": cfg, "problem": pr}, {"config": cfg, "choices": pr["choices"]})
+    key_family(chk, tier)
     chk.note("shadowed_calls", hits_total)
     chk.caps.append("n=2 histories of length <=2: all random outcomes; n=3 and length-3 histories: deviation-bounded with an execution cap")
     chk.sample({"history": ["pg:semi-adapted", "alpha"], "mode": "library", "n": 2})
@@ -246,6 +305,11 @@ def main(tier, seed):
 def replay(path):
     body = json.load(open(path))
     rp = body["replay"]
+    if "key_family" in rp:
+        lo, hi, G = rp["key_family"]
+        r = key_family_work((lo, hi, G))
+        print("arguments:", r["n"], "children-list keys:", len(r["one"]), "pair keys:", len(r["two"]), r["problems"])
+        return 1 if (r["problems"] or len(r["one"]) != r["n"] or len(r["two"]) != r["n"]) else 0
     probs = make_run(rp["config"])(ScriptedRNG(rp["choices"], policy=rp["config"].get("policy", "first")))
     print(probs)
     return 1 if probs else 0
